@@ -1,5 +1,6 @@
 import Frp.Driver.Proto
 import Frp.Model.Udp
+import Frp.Model.Sudp
 import Frp.Props.C03
 /-
   Driver engine "udp": replays the harness trace (harness/eng_udp.go) on the Base64 / Udp models
@@ -145,6 +146,115 @@ def parseTunnelResult (k : Nat) (impl : String) : Option (List Entry × List (Li
           | _ => none
   | [] => none
 
+/-! ### sudp visitor scripts (harness/eng_udp_sudp.go) -/
+
+inductive STok
+  | dgram (u ln seed : Nat)    -- d / D
+  | reply (u ln seed : Nat)    -- r
+  | ping                       -- p
+  | kill                       -- x / y / z
+  | fail                       -- fd / fr / fc
+
+def parseSTok (t : String) : Option STok :=
+  if t = "p" then some .ping
+  else if t = "x" ∨ t = "y" ∨ t = "z" then some .kill
+  else if t = "fd" ∨ t = "fr" ∨ t = "fc" then some .fail
+  else match t.toList with
+    | c :: rest =>
+      match ((String.ofList rest).splitOn ".").map String.toNat? with
+      | [some u, some l, some sd] =>
+        if c = 'd' ∨ c = 'D' then some (.dgram u l sd)
+        else if c = 'r' then some (.reply u l sd) else none
+      | _ => none
+    | [] => none
+
+def parseScript (t : String) : Option (List STok) :=
+  if t = "" then some [] else (t.splitOn ",").mapM parseSTok
+
+structure SSim where
+  s : Sudp.St
+  arm : Nat := 0                      -- connection attempts that will be made to fail
+  seen : List Nat := []               -- users whose address the far side has learned
+  must : List Entry := []             -- datagrams that have to arrive
+  may : List Entry := []              -- datagrams that triggered a failing attempt or re-opened the tunnel
+  rs : List (Nat × Entry) := []       -- replies sent by the far side (user, payload)
+
+/-- light-load schedule of one script token: the goroutines run to quiescence before the next token -/
+def simTok (ps : Nat) (st : SSim) (i : Nat) : STok → SSim
+  | .dgram u ln seed =>
+    let p := tunnelPayload u i ln seed
+    let e := entryOf (rd ps p)
+    let s1 := Sudp.step st.s (.userSend (userAddr u) p)
+    if s1.phase = .work then
+      { st with s := Sudp.step s1 (.sendNext true), must := st.must ++ [e], seen := u :: st.seen }
+    else
+      let s2 := Sudp.step s1 .dispTake
+      if st.arm > 0 then
+        { st with s := Sudp.step s2 (.connect false), arm := st.arm - 1, may := st.may ++ [e] }
+      else
+        -- the datagram that re-opens the tunnel after a loss / a failed attempt travels "while the
+        -- connection is being re-established": the property lets it go (the code as it is delivers
+        -- it; a difference shows as a behavioural disagreement).  The opener of a fresh tunnel must arrive.
+        let reopen := decide (st.s.gen > 0) || st.s.dropUp.any (fun d => d.1 = Sudp.VDrop.connFail)
+        let s3 := Sudp.step (Sudp.step s2 (.connect true)) (.sendFirst true)
+        if reopen then { st with s := s3, may := st.may ++ [e], seen := u :: st.seen }
+        else { st with s := s3, must := st.must ++ [e], seen := u :: st.seen }
+  | .reply u ln seed =>
+    if st.s.phase = .work ∧ u ∈ st.seen then
+      let q := tunnelReply (tunnelPayload u i ln seed)
+      { st with s := Sudp.step (Sudp.step st.s (.connRecv (packetOf q none (some (userAddr u))))) .sback,
+                rs := st.rs ++ [(u, entryOf q)] }
+    else st
+  | .ping => { st with s := Sudp.step st.s .connPing }
+  | .kill =>
+    if st.s.phase = .work then
+      { st with s := Sudp.step (Sudp.step (Sudp.step st.s .readerDie) .senderExit) .workerEnd }
+    else st
+  | .fail => { st with arm := st.arm + 1 }
+
+def simScript (ps : Nat) (toks : List STok) : SSim :=
+  (toks.zipIdx).foldl (fun st p => simTok ps st p.2 p.1) { s := Sudp.init ps 1024 }
+
+abbrev WEntry := Nat × Entry
+
+def wLe (a b : WEntry) : Bool := a.1 < b.1 || (a.1 == b.1 && entryLe a.2 b.2)
+
+def fmtW (ws : List WEntry) : String :=
+  ",".intercalate ((ws.mergeSort wLe).map (fun w => s!"{w.1}/{fmtEntry w.2}"))
+
+def parseW (t : String) : Option (List WEntry) :=
+  if t = "" then some [] else
+  (t.splitOn ",").mapM (fun e =>
+    match e.splitOn "/" with
+    | [g, r] => match g.toNat?, parseEntry r with
+      | some g, some r => some (g, r)
+      | _, _ => none
+    | _ => none)
+
+def modelSudp (k : Nat) (st : SSim) : String :=
+  let s := st.s
+  let ws := s.wire.filterMap (fun e => e.2.2.map (fun b => (e.1, entryOf b)))
+  let ustr := String.join ((List.range k).map (fun i =>
+    s!";U{i}={fmtEntries ((s.userLog.filter (fun e => e.1 = userAddr i)).map (fun e => entryOf e.2))}"))
+  s!"W={fmtW ws}{ustr};conns={s.gen};bad=0"
+
+/-- parse `W=…;U0=…;…;conns=n;bad=b` -/
+def parseSudpResult (k : Nat) (impl : String) : Option (List Entry × List (List Entry) × Bool) :=
+  match impl.splitOn ";" with
+  | w :: rest =>
+    match (kv "W" w).bind parseW with
+    | none => none
+    | some W =>
+      let us := (List.range k).zip (rest.take k)
+      match us.mapM (fun p => (kv s!"U{p.1}" p.2).bind parseEntries) with
+      | none => none
+      | some Us =>
+        if us.length ≠ k then none else
+        match rest.drop k with
+        | [_, b] => (kv "bad" b).map (fun v => (W.map Prod.snd, Us, v ≠ "0"))
+        | _ => none
+  | [] => none
+
 end UdpEng
 open UdpEng
 
@@ -201,6 +311,34 @@ def udpStep (st : Unit) (tok : List String) (impl : String) : Unit × Verdict :=
         | none => some false
       (st, verdictOf model impl prop)
     | _, _, _ => (st, .bad "e2e")
+  | ["e2es", pst, _, _, kt, dt] =>
+    -- same traffic through a real sudp tunnel (visitor + frps + sudp proxy) on one visitor connection:
+    -- the visitor adds no cut beyond ForwardUserConn's (same packet size), one Forwarder generation
+    match kv "ps" pst |>.bind String.toNat?, kv "k" kt |>.bind String.toNat?, kv "d" dt |>.bind parseDs with
+    | some ps, some k, some ds =>
+      if ds.any (fun d => d.1 ≥ k ∨ d.2.1 < 4) then (st, .bad "e2es datagram") else
+      let model := modelTunnel ps k ds false
+      let prop := match parseTunnelResult k impl with
+        | some (B, Us, mixed) => some (C03.holdsOnTunnel (expectedB ps ds) B (expectedU ps k ds) Us mixed)
+        | none => some false
+      (st, verdictOf model impl prop)
+    | _, _, _ => (st, .bad "e2es")
+  | ["sudp", pst, _, _, kt, sc] =>
+    -- the real SUDPVisitor against a scripted far side; encryption / compression are transparent
+    match kv "ps" pst |>.bind String.toNat?, kv "k" kt |>.bind String.toNat?, kv "s" sc |>.bind parseScript with
+    | some ps, some k, some toks =>
+      if toks.any (fun t => match t with
+          | .dgram u ln _ => u ≥ k ∨ ln < 4
+          | .reply u ln _ => u ≥ k ∨ ln < 4
+          | _ => false) then (st, .bad "sudp token") else
+      let sim := simScript ps toks
+      let model := modelSudp k sim
+      let Rs := (List.range k).map (fun i => (sim.rs.filter (fun r => r.1 = i)).map Prod.snd)
+      let prop := match parseSudpResult k impl with
+        | some (W, Us, bad) => some (C03.holdsOnSudp sim.must sim.may W Rs Us bad)
+        | none => some false
+      (st, verdictOf model impl prop)
+    | _, _, _ => (st, .bad "sudp")
   | _ => (st, .bad "op")
 
 def udp : Engine := { State := Unit, init := (), step := udpStep }
